@@ -69,6 +69,7 @@ class World:
         self.schedule = []           # names of the tasks chosen, in order
         self.choices = []            # per step: (chosen, [enabled names], current-was-enabled)
         self.record_trace = True
+        self.step_ops = {}           # scheduler step -> kind of the visible operation performed in it
 
     def fresh(self, prefix):
         self.counters[prefix] = self.counters.get(prefix, 0) + 1
@@ -91,6 +92,7 @@ class World:
             raise Killed()
         t.pending = None
         r = effect()
+        self.step_ops[self.steps] = kind
         if self.record_trace:
             self.trace.append((t.name, kind, getattr(obj, "name", None), detail, _show(r)))
         return r
@@ -808,3 +810,39 @@ def make_os_shim():
     m.getpid = lambda: (W.cur.index + 1000) if W and W.cur else real_os.getpid()
     m.listdir = lambda d: sorted(p.rsplit("/", 1)[-1] for p in W.fs if p.rsplit("/", 1)[0] == d.rstrip("/"))
     return m
+
+
+def role_chooser(script, fallback=None):
+    """Follow a list of roles: "main", ("worker", i) = the i-th process task created, ("feeder", c) = the c-th
+    SendWorkThread task, ("thread", substring, c). Divergence (the role's task does not exist or is not enabled) is
+    recorded in world.script_diverged and the default policy takes over."""
+    pos = [0]
+
+    def resolve(role, world):
+        if role == "main":
+            cands = [t for t in world.tasks if t.name == "main"]
+            return cands[0] if cands else None
+        kind, idx = role[0], role[-1]
+        if kind == "worker":
+            cands = [t for t in world.tasks if t.name.startswith("P")]
+        elif kind == "feeder":
+            cands = [t for t in world.tasks if "SendWorkThread" in t.name]
+        else:
+            cands = [t for t in world.tasks if role[1] in t.name]
+        return cands[idx - 1] if 0 < idx <= len(cands) else None
+
+    def choose(en, world, last):
+        if pos[0] < len(script) and not getattr(world, "script_diverged", None):
+            role = script[pos[0]]
+            pos[0] += 1
+            t = resolve(role, world)
+            if t is not None and t in en:
+                world.script_followed = pos[0]
+                return t
+            world.script_diverged = (pos[0] - 1, role, [x.name for x in en])
+        if fallback is not None:
+            return fallback(en, world, last)
+        if last in en:
+            return last
+        return min(en, key=lambda t: t.index)
+    return choose
